@@ -264,3 +264,25 @@ pub fn valid_time_dur() -> BoxedStrategy<Dur> {
 pub fn divisors_below(max: i128) -> Vec<i128> {
     (1..max).filter(|i| max % i == 0).collect()
 }
+
+
+/// Values x in 0..=cap for which `mult * x` lies within a few units of k * 2^31, 2^32, 2^63 or 2^64 (k = 1..=8): the
+/// inputs for which a sum or product narrowed to 32 / 64 bits wraps to an innocent-looking small number.
+pub fn wrap_prone(mult: i128, cap: i128) -> BoxedStrategy<i128> {
+    (proptest::sample::select(vec![31u32, 32, 32, 32, 63, 64]), 1i128..=8, -3i128..=11)
+        .prop_map(move |(b, k, r)| {
+            let x = (k * (1i128 << b) + r).div_euclid(mult);
+            if x > cap {
+                // fall back to the largest k that fits
+                let kmax = (cap * mult) >> b;
+                if kmax >= 1 {
+                    ((kmax.min(k)) * (1i128 << b) + r).div_euclid(mult).clamp(0, cap)
+                } else {
+                    cap - r.rem_euclid(4)
+                }
+            } else {
+                x.max(0)
+            }
+        })
+        .boxed()
+}
